@@ -6,3 +6,4 @@ CONSTANTS
   RawSets = {"skew", "ties", "tsel"}
   MultiSets = {"m1", "m2", "m3"}
   RotElems = {1, 2, 3, 4, 5, 6, 7, 8, 9, 10, 11}
+  RCoefs = {100, 90, 70, 50}
